@@ -327,6 +327,83 @@ theorem mol2_load_one (ls : List Str) (path : Nat) (fs : FS) :
       ∃ evs, st'.trace = .close :: (evs ++ [.openR]) ∧ LoadEvs evs :=
   reader_load_one _ _ _ _
 
+
+/-! ## PDB -/
+
+theorem pdb_loop_wf (L : Rd.Pdb.Layout) : ∀ (rest : List Str) (k : Nat) (acc : Rd.Pdb.Acc),
+    Wf (k + rest.length) (Rd.Pdb.loop L rest k acc).2 := by
+  intro rest
+  induction rest with
+  | nil => intro k acc; exact Or.inr ⟨rfl, by simp [Rd.Pdb.loop]⟩
+  | cons line r ih =>
+    intro k acc
+    unfold Rd.Pdb.loop
+    have hc : Wf (k + (line :: r).length) ⟨r, k + 1⟩ := Or.inl (by simp [Clean]; omega)
+    cases Rd.Pdb.lineStep L line acc with
+    | error e => exact hc
+    | ok acc' =>
+      dsimp only
+      split
+      · exact hc
+      · have := ih (k + 1) acc'
+        have e : k + 1 + r.length = k + (line :: r).length := by simp; omega
+        rw [e] at this; exact this
+
+theorem pdb_fin (L : Rd.Pdb.Layout) : Fin (Rd.Pdb.loadOne L) := by
+  intro total l hl
+  rcases l with ⟨rest, k⟩
+  simp only [Clean] at hl
+  have := pdb_loop_wf L rest k {}
+  rw [hl] at this
+  unfold Rd.Pdb.loadOne
+  dsimp only
+  rcases hlp : Rd.Pdb.loop L rest k {} with ⟨r, l'⟩
+  rw [hlp] at this
+  cases r <;> exact this
+
+/-- **pdb_terminates**: on any list of lines the PDB reader (one line per iteration of the record loop) returns
+an object or raises a class of the enumeration, after at most `N + 1` reads. -/
+theorem pdb_terminates (L : Rd.Pdb.Layout) (ls : List Str) :
+    ((∃ o, (Rd.Pdb.read L ls).res = .ok o) ∨ (∃ c, (Rd.Pdb.read L ls).res = .error c)) ∧
+    (Rd.Pdb.read L ls).lineno ≤ ls.length + 1 := by
+  refine ⟨?_, run_lineno_le (pdb_fin L) ls⟩
+  cases (Rd.Pdb.read L ls).res with
+  | ok o => exact Or.inl ⟨o, rfl⟩
+  | error c => exact Or.inr ⟨c, rfl⟩
+
+/-- **pdb_shapes**: a returned PDB result has `atcoords (natom, 3)`, `atnums (natom,)`, three `atffparams`
+arrays and the occupancies / B-factors / chain identifiers in `extra` all of length `natom ≥ 1` (they are built
+from lists appended together), bonds `(nbond, 3)` when present, and passes the constructor. -/
+theorem pdb_shapes (L : Rd.Pdb.Layout) (ls : List Str) (o : RObj) (h : (Rd.Pdb.read L ls).res = .ok o) :
+    ∃ n, 0 < n ∧ o.natom = some n ∧ o.FullyConsistent n ∧ ctorE o = none := by
+  have key : ∀ acc, Rd.Pdb.finish acc = .ok o →
+      ∃ n, 0 < n ∧ o.natom = some n ∧ o.FullyConsistent n ∧ ctorE o = none := by
+    intro acc hf
+    unfold Rd.Pdb.finish at hf
+    split at hf
+    · cases hf
+    · rename_i hn
+      injection hf with hf
+      subst hf
+      refine ⟨acc.natom, Nat.pos_of_ne_zero hn, rfl, ⟨⟨?_, ?_, ?_, ?_, ?_, ?_⟩, ?_, ?_⟩, ?_⟩ <;>
+        (by_cases hb : acc.nbond > 0 <;> cases acc.chain <;>
+          simp [ctorE, ctorOk, RObj.natom, optShape, shapeMatch, lenOf, hb])
+  unfold Rd.Pdb.read run Rd.Pdb.loadOne at h
+  dsimp only at h
+  rcases hl : Rd.Pdb.loop L ls 0 {} with ⟨r, l'⟩
+  rw [hl] at h
+  cases r with
+  | ok acc => exact key acc h
+  | error e => cases h
+
+/-- **pdb_load_one**: `load_one` on any PDB file content returns an object with consistent shapes or raises
+`LoadError`; the file is closed. -/
+theorem pdb_load_one (L : Rd.Pdb.Layout) (ls : List Str) (path : Nat) (fs : FS) :
+    ∃ st', runLoadOne loadOne (behOf (Rd.Pdb.read L ls) ls.length) path fs = (apiOutcome (Rd.Pdb.read L ls), st') ∧
+      IsObjOrLoadError (apiOutcome (Rd.Pdb.read L ls)) ∧ st'.fs = fs ∧
+      ∃ evs, st'.trace = .close :: (evs ++ [.openR]) ∧ LoadEvs evs :=
+  reader_load_one _ _ _ _
+
 /-! ### non-vacuity (the generated tables, evaluated by the kernel) -/
 
 example : (Rd.Xyz.read Gen.Layouts.tables
